@@ -1,6 +1,6 @@
 INIT Init
 NEXT Next
-CONSTANTS MaxRowBits = 1
+CONSTANTS MaxRowBits = 2
  BankBits = {1, 2}
  ColBits = {9, 10, 11}
  Aligns = {0, 2, 3}
